@@ -449,9 +449,9 @@ func (g gentry) aft() *spb.AFTEntry {
 	case "nh":
 		e.Entry = &spb.AFTEntry_NextHop{NextHop: &aftpb.Afts_NextHopKey{Index: g.key, NextHop: &aftpb.Afts_NextHop{}}}
 	case "ipv4":
-		e.Entry = &spb.AFTEntry_Ipv4{Ipv4: &aftpb.Afts_Ipv4EntryKey{Prefix: fmt.Sprintf("10.0.%d.0/24", g.key), Ipv4Entry: &aftpb.Afts_Ipv4Entry{}}}
+		e.Entry = &spb.AFTEntry_Ipv4{Ipv4: &aftpb.Afts_Ipv4EntryKey{Prefix: pfx4(g.key), Ipv4Entry: &aftpb.Afts_Ipv4Entry{}}}
 	case "ipv6":
-		e.Entry = &spb.AFTEntry_Ipv6{Ipv6: &aftpb.Afts_Ipv6EntryKey{Prefix: fmt.Sprintf("2001:db8:%d::/48", g.key), Ipv6Entry: &aftpb.Afts_Ipv6Entry{}}}
+		e.Entry = &spb.AFTEntry_Ipv6{Ipv6: &aftpb.Afts_Ipv6EntryKey{Prefix: pfx6(g.key), Ipv6Entry: &aftpb.Afts_Ipv6Entry{}}}
 	case "mpls":
 		e.Entry = &spb.AFTEntry_Mpls{Mpls: &aftpb.Afts_LabelEntryKey{Label: &aftpb.Afts_LabelEntryKey_LabelUint64{LabelUint64: labelOf(g.key)}, LabelEntry: &aftpb.Afts_LabelEntry{}}}
 	}
@@ -465,9 +465,9 @@ func (g gentry) fluent() fluent.GRIBIEntry {
 	case "nh":
 		return fluent.NextHopEntry().WithNetworkInstance(g.ni).WithIndex(g.key).WithIPAddress("192.0.2.1")
 	case "ipv4":
-		return fluent.IPv4Entry().WithNetworkInstance(g.ni).WithPrefix(fmt.Sprintf("10.0.%d.0/24", g.key)).WithNextHopGroup(1)
+		return fluent.IPv4Entry().WithNetworkInstance(g.ni).WithPrefix(pfx4(g.key)).WithNextHopGroup(1)
 	case "ipv6":
-		return fluent.IPv6Entry().WithNetworkInstance(g.ni).WithPrefix(fmt.Sprintf("2001:db8:%d::/48", g.key)).WithNextHopGroup(1)
+		return fluent.IPv6Entry().WithNetworkInstance(g.ni).WithPrefix(pfx6(g.key)).WithNextHopGroup(1)
 	default:
 		return fluent.LabelEntry().WithNetworkInstance(g.ni).WithLabel(uint32(labelOf(g.key))).WithNextHopGroup(1)
 	}
@@ -490,11 +490,11 @@ func (g gentry) fluentMoved(from string) fluent.GRIBIEntry {
 		b.EntryProto()
 		return b.WithIndex(g.key).WithNetworkInstance(g.ni)
 	case "ipv4":
-		b := fluent.IPv4Entry().WithNetworkInstance(from).WithPrefix(fmt.Sprintf("10.0.%d.0/24", g.key)).WithNextHopGroup(1)
+		b := fluent.IPv4Entry().WithNetworkInstance(from).WithPrefix(pfx4(g.key)).WithNextHopGroup(1)
 		b.EntryProto()
 		return b.WithNetworkInstance(g.ni)
 	case "ipv6":
-		b := fluent.IPv6Entry().WithNetworkInstance(from).WithPrefix(fmt.Sprintf("2001:db8:%d::/48", g.key)).WithNextHopGroup(1)
+		b := fluent.IPv6Entry().WithNetworkInstance(from).WithPrefix(pfx6(g.key)).WithNextHopGroup(1)
 		b.EntryProto()
 		return b.WithNetworkInstance(g.ni)
 	default:
@@ -745,4 +745,23 @@ func labelOf(key uint64) uint64 {
 		return 100 + key
 	}
 	return []uint64{1, 2, 3, 7, 0, 15, 16, 1048575}[(key-3)%8]
+}
+
+// pfx4 / pfx6 map the small key space onto prefixes; the higher keys use legal spellings
+// that are not canonical (host bits set, upper case, uncompressed): keys are exact strings.
+func pfx4(k uint64) string {
+	if k >= 3 {
+		return fmt.Sprintf("10.0.%d.7/24", k)
+	}
+	return fmt.Sprintf("10.0.%d.0/24", k)
+}
+
+func pfx6(k uint64) string {
+	switch {
+	case k >= 5:
+		return fmt.Sprintf("2001:db8:%d:0:0::/48", k)
+	case k >= 3:
+		return fmt.Sprintf("2001:DB8:%d::/48", k)
+	}
+	return fmt.Sprintf("2001:db8:%d::/48", k)
 }
